@@ -608,15 +608,23 @@ def fam_format(rng, tier, i):
     # non-canonical: extra sections although the delta would fit
     b = b""
     full = None
+    early = rng.random() < 0.4      # a full timestamp may also lie before its first line (any value the deltas can reach from)
+    prev = -1
     for t, pay in lines:
         if full is None or t - full > MAXD or rng.random() < 0.4:
-            b += enc_section(p, t); full = t
+            full = t
+            if early:
+                full = max(prev + 1, t - rng.choice([0, 1, 1000, MAXD]), 0)
+            b += enc_section(p, full)
         b += enc_line(t - full, pay)
+        prev = t
     s = [new_line("w", p, bytes(rng.randrange(256) for _ in range(rng.choice([0, 5])))), "close",
          "fs_append data:w %s" % hexb(b)]
     if rng.random() < 0.5:
         s.append("fs_rm index:w")
     s += [open_line("w"), "read_all u u", "len", "range", "last_line"]
+    for lo, hi in bounds_critical(rng, [t for t, _ in lines], 6):
+        s.append(rng.choice(["read_all %s %s", "read_all %s %s", "read_first_n 2 %s %s", "n_lines %s %s"]) % (lo, hi))
     t_new = lines[-1][0] + rng.choice([1, 70000])
     if t_new < U64:
         s += ["push %d %s" % (t_new, hexb(payload(rng, p))), "read_all u u"]
